@@ -453,6 +453,32 @@ func propC08(c *Ctx) {
 			runFnCase(c, "u", f, args)
 		}
 	}
+	// every function looked up on a collection from which an EARLIER entry was removed by index after a first lookup
+	for i, name := range fnNames {
+		if name == "Ticks" || name == "Now" || name == "Rnd" || name == "Random" {
+			continue
+		}
+		args := []*variants.Variant{vInt(2)}
+		switch name {
+		case "Min", "Max", "Sum", "Contains":
+			args = []*variants.Variant{vInt(3), vInt(7)}
+		case "If", "Choose", "TimeSpan":
+			args = []*variants.Variant{vInt(1), vInt(5), vInt(6)}
+		case "E", "Pi", "Null":
+			args = nil
+		}
+		plain := safeCall(func() string {
+			return outcome(functions.NewDefaultFunctionCollection().FindByName(name).Calculate(args, mgrOf("u")))
+		})
+		for h := 4; h <= 5; h++ {
+			for _, removed := range fnNames[:i] {
+				if (len(removed)+len(name))%6 == h {
+					runFnEdited(c, "u", name, removed, args, plain)
+					break
+				}
+			}
+		}
+	}
 	for _, a := range []string{"", "a", "abc", "héllo", "日本語abc", "ABC"} {
 		for _, b := range []string{"", "a", "bc", "é", "本語", "abc", "abcd", "A"} {
 			runFnCase(c, "u", "Contains", []*variants.Variant{vStr(a), vStr(b)})
@@ -497,8 +523,17 @@ func runFnEdited(c *Ctx, m, name, removed string, args []*variants.Variant, plai
 		user := functions.NewDelegatedFunction("UserDefined", func(params []*variants.Variant, ops variants.IVariantOperations) (*variants.Variant, error) {
 			return variants.VariantFromString("user"), nil
 		})
-		// four edit histories (chosen by the removed name): remove only; remove then add; add then remove; find, remove
-		switch len(removed) % 4 {
+		// six edit histories (chosen by the removed name): remove only; remove then add; add then remove; find, remove;
+		// find, remove BY INDEX; find in another letter case, remove by index, add
+		switch (len(removed) + len(name)) % 6 {
+		case 4:
+			coll.FindByName(name)
+			coll.Remove(coll.FindIndexByName(removed))
+		case 5:
+			coll.FindByName(strings.ToLower(name))
+			coll.FindByName(strings.ToUpper(name))
+			coll.Remove(coll.FindIndexByName(removed))
+			coll.Add(user)
 		case 0:
 			coll.RemoveByName(removed)
 		case 1:
@@ -525,7 +560,7 @@ func runFnEdited(c *Ctx, m, name, removed string, args []*variants.Variant, plai
 		return
 	}
 	if got != plain {
-		c.fail(Failure{Kind: "oracle", Op: op, Impl: got, Spec: plain, Note: fmt.Sprintf("after RemoveByName(%q) (edit history %d), %s(...) gives %s; on the untouched default collection it gives %s", removed, len(removed)%4, name, got, plain)})
+		c.fail(Failure{Kind: "oracle", Op: op, Impl: got, Spec: plain, Note: fmt.Sprintf("after removing %q (edit history %d), %s(...) gives %s; on the untouched default collection it gives %s", removed, (len(removed)+len(name))%6, name, got, plain)})
 	}
 }
 
